@@ -73,7 +73,9 @@ CLAIMED = {
              "vocabulary (structure matched exactly: 0 drift) and rendered by an independent OT-SVG oracle; random scenarios over "
              "picosvg(z)/untouchedsvg(z) with shuffled input order, and a grid of user-transform kinds x gradient kinds.  The glyph-id bookkeeping "
              "(Reshuffle, stored ids, GidIsPosition) is part of the model and compared with the font; a negative configuration must be violated.  TLC found "
-             "the tidy defect (donor repainted); the grid found two OT-SVG gradient defects; all fixed in /repo.",
+             "the tidy defect (donor repainted); the grid found two OT-SVG gradient defects; all fixed in /repo.  DisjointSet.tla (the union-find "
+             "behind the grouping, statement by statement) is model-checked, replayed call by call into the real class, and the calls recorded "
+             "during the real builds are validated against it (DisjointSetTrace, B2); nested opacity groups in every closing position.",
         note="Trusted: TLC; lxml; the OT-SVG oracle (SVG 1.1 subset: g, path, use, defs, basic shapes, fill inheritance, opacity, gradients), "
              "itself compared with resvg on the documents of real builds at the start of every run.",
         technique="TLA+ model of the document assembly protocol checked by TLC; spec-to-code replay with structural projection and an independent OT-SVG renderer",
@@ -111,7 +113,10 @@ CLAIMED = {
              "the canonical content term and that every file a step really reads (strace) is ordered before it by declared inputs "
              "(DeclaredCoversRead); real builds of one source set per format under argument permutations, hash seeds, -j1, random topological "
              "edge-by-edge orders, a different cwd/build-dir layout and relative spellings from inside a source directory must have identical sha256; "
-             "Sources.tla (resolved source order independent of cwd and argument order, with a negative configuration) is replayed into config.load.",
+             "Sources.tla (resolved source order independent of cwd and argument order, with a negative configuration) is replayed into config.load.  "
+             "Scratch.tla (ninja's response files with several steps in flight: ReadsOwn, Completes) is checked on the extracted graphs of a "
+             "static font, a variable font and two configs, with a generated negative configuration, and bound to -j1 / -j16 builds.  Parts.tla "
+             "(ReusableParts: the parts side files, outside the property) is model-checked and replayed; drift is a note, never a violation.",
         note="Trusted: TLC, ninja, strace; SOURCE_DATE_EPOCH fixed.  Schedules are exhaustive on the model, sampled on the real CLI.",
         technique="TLA+ model of ninja scheduling on graphs extracted from the code, checked by TLC; differential real builds",
         design_ref="DESIGN.md §4.1, §5 C08",
@@ -141,7 +146,9 @@ CLAIMED = {
              "shaping) is model-checked for Reachable / Distinct / Skeleton over all sets of <=2 sequences of length <=3 on a 7-codepoint alphabet "
              "(letters, hex-alphabetic, ZWJ, VS16, astral); scenarios are replayed into the real naming / fea functions and real builds in all 13 "
              "colour formats; an independent shaper (cmap + GSUB read from the reloaded binary) decides reachability; blanks, .notdef, space and "
-             "the advance rule are read from the binary; names > 63 chars, prefix-related sequences and aspect ratios 1:4..4:1 are sampled.",
+             "the advance rule are read from the binary; prefix-related sequences and aspect ratios 1:4..4:1 are sampled.  GlyphName.tla (names "
+             "longer than 63 characters: hashed, prefix decided again on the digest; negative configuration) is model-checked, every class "
+             "realised by a concrete sequence and replayed, and fonts are built from long sequences of every class.",
         note="Trusted: TLC; fontTools cmap/GSUB decompilation; the shaper (longest-match ligature application as in OpenType).  One naming collision "
              "(hex-like letters vs g_ prefix) is a recorded known finding.",
         technique="TLA+ model of glyph-set construction and shaping checked by TLC; spec-to-code replay judged by an independent shaper on the binary",
